@@ -5,6 +5,9 @@ Property theorems only (helper lemmas live in Lemmas/LimitedStream.lean).
 import WzVerif.Model.LimitedStream
 import WzVerif.Lemmas.LimitedStream
 import WzVerif.Gen.InputStream
+import WzVerif.Gen.InputStreamFacts
+import WzVerif.Model.InputStreamReq
+import WzVerif.Lemmas.InputStreamReq
 namespace Wz.Props.C09
 open Wz Wz.LS Wz.Gen.InputStream
 
@@ -449,5 +452,313 @@ theorem lines_are_lines (s : St) :
 
 example : (runOps (fresh [97, 10, 98, 99, 10, 100] [.give 2] 5 false true) [.readline none, .readlines none]).1
     = [.ok [[97, 10]], .ok [[98, 99, 10]]] := by rfl
+
+/-! ### observers, iteration, buffering wrappers -/
+
+/-- **`tell()` is the number of bytes taken from the server's input, `is_exhausted` means exactly
+"the limit has been reached"** — after every operation sequence and for every behaviour of the
+underlying stream. (`readable()` is the constant `True`.) -/
+theorem tell_is_consumed (data : Bytes) (script : List Beh) (limit : Nat) (isMax ri : Bool) (ops : List Op) :
+    tell (finalState (fresh data script limit isMax ri) ops)
+      = (finalState (fresh data script limit isMax ri) ops).u.taken.length ∧
+    tell (finalState (fresh data script limit isMax ri) ops) ≤ limit ∧
+    (isExhausted (finalState (fresh data script limit isMax ri) ops) = true ↔
+      tell (finalState (fresh data script limit isMax ri) ops) = limit) ∧
+    readable (finalState (fresh data script limit isMax ri) ops) = true := by
+  obtain ⟨h1, h2⟩ := consumed_eq_pos data script limit isMax ri ops
+  obtain ⟨d, h⟩ := fresh_run data script limit isMax ri ops
+  have hl := h.limit_eq
+  unfold finalState at h1 h2 ⊢
+  refine ⟨h1.symm, by unfold tell; omega, ?_, rfl⟩
+  unfold isExhausted tell
+  rw [hl]
+  simp only [decide_eq_true_eq]
+  omega
+
+example : tell (finalState (fresh [1, 2, 3, 4, 5] [.give 1] 4 false true) [.read 2, .read 2]) = 3 := by decide
+
+/-- **`for line in stream` is a run of `__next__` calls** (so every theorem above about operation
+sequences covers it), **and it always ends**: after finitely many non-empty, line-shaped lines
+`__next__` raises — `StopIteration` (the normal end), ClientDisconnected, or RequestEntityTooLarge
+under a maximum; the model's loop bound is never what stops it. -/
+theorem iteration_is_next_run (s : St) (hi : Inv s) :
+    iterAll s = runOps s (List.replicate (iterAll s).1.length Op.next) ∧
+    ∃ (ls : List Bytes) (e : String),
+      (iterAll s).1 = ls.map (fun l => (Except.ok [l] : LRes)) ++ [.error e] ∧
+      (∀ l ∈ ls, l ≠ [] ∧ LineShaped l) ∧
+      (e = "StopIteration" ∨ e = "ClientDisconnected" ∨ (e = "RequestEntityTooLarge" ∧ s.isMax = true)) := by
+  refine ⟨iterLoop_eq_runOps _ s, ?_⟩
+  obtain ⟨ls, e, h1, h2, h3⟩ := iterLoop_ends (s.limit - s.pos + 1) s hi (by omega)
+  refine ⟨ls, e, h1, h2, ?_⟩
+  rcases h3 with (⟨h3, h4⟩ | h3) | h3
+  · exact Or.inr (Or.inr ⟨h3, h4⟩)
+  · exact Or.inr (Or.inl h3)
+  · exact Or.inl h3
+
+example : (iterAll (fresh [97, 10, 98, 99, 10, 100] [.give 2] 5 false true)).1
+    = [.ok [[97, 10]], .ok [[98, 99, 10]], .error "StopIteration"] := by rfl
+example : (iterAll (fresh [97, 10, 98] [] 5 false true)).1 = [.ok [[97, 10]], .error "ClientDisconnected"] := by rfl
+
+/-- **Any buffering wrapper** (`io.BufferedReader`, `io.TextIOWrapper`, a form parser, …) that
+(recorded assumption, checked per case by stream `wrapped`) touches the `LimitedStream` only through
+its read operations and hands its own caller nothing but bytes those operations returned, in order
+(`outs` is a prefix of their concatenation): whatever call sequence it issues, its caller never
+receives more than `limit` bytes, and what it receives is a prefix of what the client sent. -/
+theorem wrapper_yields_prefix (data : Bytes) (script : List Beh) (limit : Nat) (isMax ri : Bool)
+    (ops : List Op) (outs : Bytes)
+    (hw : outs <+: yielded (runOps (fresh data script limit isMax ri) ops).1)
+    (hok : allOk (runOps (fresh data script limit isMax ri) ops).1 = true) :
+    outs.length ≤ limit ∧ outs <+: data := by
+  obtain ⟨h1, h2⟩ := yielded_is_prefix data script limit isMax ri ops
+  have h3 := h2 hok
+  constructor
+  · exact Nat.le_trans hw.length_le h1
+  · rw [h3] at hw
+    exact hw.trans (List.take_prefix _ _)
+
+example : ([1, 2, 3] : Bytes) <+: yielded (runOps (fresh [1, 2, 3, 4, 5] [.give 1] 4 false true) [.read 2, .readall]).1 := by
+  decide
+
+/-! ### `Request.stream` / `get_data` / `form` / `close` — access histories on one Request object -/
+
+open Wz.RB in
+/-- **The Request glue never over-reads**, for every access history — `request.stream.<any read>`,
+`get_data(cache, parse_form_data)`, `form` / `files` / `values` with a form parser issuing *any*
+sequence of reads, `close()`, in any order and number — and every behaviour of `wsgi.input`: the
+bytes taken from `wsgi.input` never exceed the limit `get_input_stream` chose (the declared
+Content-Length, or `max_content_length` on a terminated input; **nothing at all** when there is no
+usable length on a non-terminating server, or when the declared length exceeds the maximum), no
+single request to `wsgi.input` could pass it, and no byte the client sent is lost or reordered. -/
+theorem request_never_overreads (cl : Option (List Char)) (chunked terminated : Bool) (max : Option Nat)
+    (ri wantForm : Bool) (data : Bytes) (script : List Beh) (hist : List ROp) :
+    consumed (runROps (freshReq cl chunked terminated max ri wantForm data script) hist).2
+      ≤ limitFor (getInputStream cl chunked terminated max true) data ∧
+    (∀ p ∈ (runROps (freshReq cl chunked terminated max ri wantForm data script) hist).2.input.log,
+      p.1 + p.2 ≤ limitFor (getInputStream cl chunked terminated max true) data) ∧
+    (runROps (freshReq cl chunked terminated max ri wantForm data script) hist).2.input.taken
+      ++ (runROps (freshReq cl chunked terminated max ri wantForm data script) hist).2.input.data = data := by
+  have h := runROps_keeps hist _ (freshReq_inv cl chunked terminated max ri wantForm data script)
+  have hc : choiceOf (runROps (freshReq cl chunked terminated max ri wantForm data script) hist).2
+      = getInputStream cl chunked terminated max true := h.choice
+  have hb := h.inv.bound
+  have hl := h.inv.log
+  rw [hc] at hb hl
+  exact ⟨hb, hl, h.inv.orig⟩
+
+open Wz.RB in
+/-- the limit of `request_never_overreads` in the property's terms: 0 without a usable length on a
+non-terminating server and when the declared length exceeds the maximum (413); the declared length
+otherwise; the maximum on a terminated input -/
+theorem request_limit_cases (cl : Option (List Char)) (chunked terminated : Bool) (max : Option Nat)
+    (data : Bytes) :
+    (getContentLength cl chunked = none → terminated = false →
+      limitFor (getInputStream cl chunked terminated max true) data = 0) ∧
+    (∀ n m, getContentLength cl chunked = some n → max = some m → n > m →
+      limitFor (getInputStream cl chunked terminated max true) data = 0) ∧
+    (∀ n, getContentLength cl chunked = some n → terminated = false →
+      limitFor (getInputStream cl chunked terminated max true) data ≤ n) ∧
+    (∀ m, terminated = true → max = some m →
+      limitFor (getInputStream cl chunked terminated max true) data ≤ m) := by
+  obtain ⟨h1, h2, h3, h4⟩ := get_input_stream_choice cl chunked terminated true max
+  refine ⟨fun a b => by rw [h1 a b rfl]; rfl, fun n m a b c => by rw [h2 n m a b c]; rfl, ?_, ?_⟩
+  · intro n hn ht
+    subst ht
+    cases max with
+    | none => simp [getInputStream, hn, limitFor]
+    | some m => by_cases hgt : n > m <;> simp [getInputStream, hn, hgt, limitFor]
+  · intro m ht hm
+    rcases h3 m ht hm with h | h <;> rw [h] <;> simp [limitFor]
+
+open Wz.RB in
+/-- **A history that neither caches nor parses is a stream history**: `request.stream.<op>` and
+`request.get_data(cache=False)` calls on a Request whose body was given a `LimitedStream` return
+exactly what the same operations (`get_data` = `read()`) return on that one `LimitedStream` over
+`wsgi.input` — the glue adds no reads, drops no results and creates the wrapper once. Every theorem
+above (`yielded_is_prefix`, `short_body_disconnect`, `over_max_413`, `readall_exact`, …) therefore
+holds verbatim for "stream, then data", "data, then stream", etc. -/
+theorem request_plain_history_is_stream_history (cl : Option (List Char)) (chunked terminated : Bool)
+    (max : Option Nat) (ri wantForm : Bool) (data : Bytes) (script : List Beh) (n : Nat) (m : Bool)
+    (hch : getInputStream cl chunked terminated max true = .limited n m) (ps : List Plain) :
+    (runROps (freshReq cl chunked terminated max ri wantForm data script) (ps.map Plain.toR)).1
+      = (runOps (fresh data script n m ri) (ps.map Plain.toOp)).1 := by
+  cases ps with
+  | nil => rfl
+  | cons p ps =>
+    have hm : makeStream (freshReq cl chunked terminated max ri wantForm data script)
+        = .ok (true, fresh data script n m ri) := by
+      simp [makeStream, freshReq, hch, fresh]
+    have h0 := runROp_plain_unborn (r := freshReq cl chunked terminated max ri wantForm data script)
+      rfl rfl hm p
+    obtain ⟨h1, h2, h3⟩ := runROp_plain
+      (r := { freshReq cl chunked terminated max ri wantForm data script with
+              stream := some (true, fresh data script n m ri) }) rfl rfl p
+    simp only [List.map_cons, runROps, runOps, h0]
+    rw [h1, runROps_plain ps _ true _ h2 h3]
+
+open Wz.RB in
+example : (runROps (freshReq (some ['4']) false false none true false [1, 2, 3, 4, 5] [.give 1])
+    [.stream (.read 2), .getData false false [], .getData false false []]).1
+    = [.ok [[1]], .ok [[2, 3, 4]], .ok [[]]] := by rfl
+
+open Wz.RB in
+/-- **Cached data is stable**: once `get_data()` (with `cache=True`, the default; also `request.data`
+/ `get_json()`) has returned, every later `get_data(...)` — whatever its flags, whatever happened in
+between (stream reads, form parsing, `close()`) — returns the same bytes and takes nothing from
+`wsgi.input`; and form parsing after cached data reads a private copy, never the input. -/
+theorem request_cached_data_stable (r : RSt) (c : Bytes) (hc : r.cached = some c) (hist : List ROp)
+    (cache parse : Bool) (pops : List Op) :
+    (runROps r hist).2.cached = some c ∧
+    runROp (runROps r hist).2 (.getData cache parse pops) = (.ok [c], (runROps r hist).2) ∧
+    (loadForm r pops).2.input = r.input := by
+  have key : ∀ (hist : List ROp) (r : RSt), r.cached = some c → (runROps r hist).2.cached = some c := by
+    intro hist
+    induction hist with
+    | nil => intro r h; exact h
+    | cons op ops ih =>
+      intro r h
+      simp only [runROps]
+      apply ih
+      cases op with
+      | close => exact h
+      | stream op =>
+        simp only [runROp, accessStream]
+        cases hs : r.stream with
+        | some st => simpa [putStream] using h
+        | none =>
+          simp only
+          cases makeStream r with
+          | error e => exact h
+          | ok p => simpa [putStream] using h
+      | getData cache parse pops => simp [runROp, getData, h, runROp.single']
+      | form pops =>
+        simp only [runROp, loadForm]
+        by_cases hf : r.formLoaded = true
+        · simpa [hf] using h
+        · by_cases hw : r.wantForm = true
+          · simp only [hf, hw, h, Bool.false_eq_true, if_false, if_true]
+            rcases runParser (memStream c) pops with ⟨e, st'⟩
+            cases e <;> simpa using h
+          · simp only [hf, hw, Bool.false_eq_true, if_false, accessStream]
+            cases hs : r.stream with
+            | some st => simpa using h
+            | none =>
+              simp only
+              cases makeStream r with
+              | error e => simpa using h
+              | ok p => simpa using h
+  have h1 := key hist r hc
+  refine ⟨h1, by simp [runROp, getData, h1, runROp.single'], ?_⟩
+  unfold loadForm
+  by_cases hf : r.formLoaded = true
+  · simp [hf]
+  · by_cases hw : r.wantForm = true
+    · simp only [hf, hw, hc, Bool.false_eq_true, if_false, if_true]
+      rcases runParser (memStream c) pops with ⟨e, st'⟩
+      cases e <;> rfl
+    · simp only [hf, hw, Bool.false_eq_true, if_false, accessStream]
+      cases hs : r.stream with
+      | some st => rfl
+      | none =>
+        simp only
+        cases makeStream r <;> rfl
+
+open Wz.RB in
+/-- `get_data(cache=True)` stores exactly what it returns -/
+theorem request_get_data_caches (r : RSt) (parse : Bool) (pops : List Op) (b : Bytes) (r' : RSt)
+    (h : getData r true parse pops = (.ok b, r')) : r'.cached = some b := by
+  unfold getData at h
+  cases hc : r.cached with
+  | some c =>
+    simp only [hc, Prod.mk.injEq, Except.ok.injEq] at h
+    rw [← h.2, hc, h.1]
+  | none =>
+    simp only [hc] at h
+    rcases hl : (if parse = true then loadForm r pops else (none, r)) with ⟨e, r1⟩
+    rw [hl] at h
+    cases e with
+    | some e => simp at h
+    | none =>
+      simp only at h
+      rcases ha : accessStream r1 with ⟨res, r2⟩
+      rw [ha] at h
+      cases res with
+      | error e => simp at h
+      | ok p =>
+        obtain ⟨live, st⟩ := p
+        simp only at h
+        rcases hr : readall st with ⟨res2, st'⟩
+        rw [hr] at h
+        cases res2 with
+        | error e => simp at h
+        | ok b' =>
+          simp only [if_true, Prod.mk.injEq, Except.ok.injEq] at h
+          rw [← h.2, h.1]
+
+open Wz.RB in
+/-- **Declared length above `max_content_length`**: every access to the body — `stream`, `get_data`,
+`form` — raises RequestEntityTooLarge, again on every further access (the failed `stream` property is
+not cached), and the object and `wsgi.input` stay untouched; `close()` is always a no-op for the body. -/
+theorem request_too_large_every_access (r : RSt) (hs : r.stream = none) (hc : r.cached = none)
+    (hf : r.formLoaded = false) (hch : choiceOf r = .tooLarge) (op : ROp) :
+    runROp r op = (.error "RequestEntityTooLarge", r) ∨ (op matches .close ∧ runROp r op = (.ok [], r)) := by
+  have hm : makeStream r = .error "RequestEntityTooLarge" := by
+    unfold choiceOf at hch
+    simp [makeStream, hch]
+  cases op with
+  | close => exact Or.inr ⟨rfl, rfl⟩
+  | stream op => left; simp [runROp, accessStream, hs, hm]
+  | form pops =>
+    left
+    by_cases hw : r.wantForm = true <;> simp [runROp, loadForm, hf, hw, hc, accessStream, hs, hm]
+  | getData cache parse pops =>
+    left
+    cases parse with
+    | false => simp [runROp, getData, hc, accessStream, hs, hm, runROp.single']
+    | true =>
+      by_cases hw : r.wantForm = true <;>
+        simp [runROp, getData, hc, loadForm, hf, hw, accessStream, hs, hm, runROp.single']
+
+open Wz.RB in
+example : (runROps (freshReq (some ['9']) false false (some 4) true true [1, 2, 3, 4, 5, 6, 7, 8, 9] [])
+    [.stream (.read 2), .getData true true [.readall], .form [.readall], .close]).1
+    = [.error "RequestEntityTooLarge", .error "RequestEntityTooLarge", .error "RequestEntityTooLarge", .ok []] := by
+  rfl
+
+open Wz.RB in
+/-- form first, then data: the parser (here: one `read()`) drains the declared length, `get_data()`
+afterwards returns `b""` without an error and without touching the input again; data first, then
+form: the parser reads the cached copy -/
+example : (runROps (freshReq (some ['3']) false false none true true [1, 2, 3, 4] [])
+    [.form [.readall], .getData true false [], .stream (.read 5)]).1 = [.ok [], .ok [[]], .ok [[]]] ∧
+    consumed (runROps (freshReq (some ['3']) false false none true true [1, 2, 3, 4] [])
+    [.form [.readall], .getData true false [], .stream (.read 5)]).2 = 3 := by
+  constructor <;> rfl
+
+open Wz.RB in
+example : (runROps (freshReq (some ['3']) false false none true true [1, 2, 3, 4] [])
+    [.getData true false [], .form [.readall], .getData false true [], .stream (.read 5)]).1
+    = [.ok [[1, 2, 3]], .ok [], .ok [[1, 2, 3]], .ok [[]]] := by rfl
+
+/-! ### structure of the source the hand model transcribes (AST facts, regenerated on every run) -/
+
+open Wz.Gen.InputStreamFacts in
+/-- **The model's transcription of `LimitedStream` and of the Request glue matches the shape of the
+live source**: `readall` loops over `self.read(65536)`; each of the three paths of `readinto` that
+touch the underlying stream catches exactly `(OSError, ValueError)`; `_pos` is assigned in
+`__init__` and once in `readinto` only; `is_exhausted` is `_pos >= limit`; `on_exhausted` raises
+RequestEntityTooLarge iff the limit is a maximum; `on_disconnect` raises ClientDisconnected unless
+the limit is a maximum and no error occurred; `exhaust` reads iff not exhausted; `tell` is `_pos`.
+`Request.stream` is `get_input_stream(environ, max_content_length=self.max_content_length)` with the
+safe fallback left on; `get_data` starts from `_cached_data`, reads `self.stream.read()` once and only
+when nothing is cached, parses the form only under `parse_form_data` and before the read, caches only
+under `cache`; `_get_stream_for_parsing` hands the parser a `BytesIO` copy of cached data;
+`_load_form_data` runs once and stores the parser's stream; `close()` touches neither stream nor cache. -/
+theorem stream_source_structure :
+    readallChunk = 65536 ∧ readintoHandlers = 3 ∧ readintoCatches = ["OSError", "ValueError"] ∧ posWrites = 2 ∧
+    exhaustedIsGe = true ∧ exhaustedRaisesIffMax = true ∧ disconnectRaisesUnlessCleanMax = true ∧
+    exhaustReadsUnlessExhausted = true ∧ tellIsPos = true ∧ streamIsGuardedInput = true ∧
+    getDataReadsStreamOnce = true ∧ getDataCachesUnderFlag = true ∧ getDataParsesUnderFlag = true ∧
+    parsingUsesCachedCopy = true ∧ closeTouchesOnlyFiles = true ∧ loadFormStoresParserStream = true := by
+  decide
 
 end Wz.Props.C09
